@@ -141,9 +141,13 @@ Definition reg_step (st : rstate) (pe : str * ep) (code : N) : rstate :=
       | Err c =>
           let v := if code =? 0 then (if ok_spec then V_DIVERGE else V_VIOLATION)
                    else if ok_spec then V_VIOLATION
-                   else if (code =? reg_code c) || (code =? 99) then V_AGREE else V_DIVERGE in
+                   (* refused as the model says: by the panic of the model's class, by a panic whose
+                      wording the harness does not recognise (99), or by an Err value (50) *)
+                   else if (code =? reg_code c) || (code =? 99) || (code =? 50) then V_AGREE else V_DIVERGE in
+          (* a refusal by Err leaves a usable description behind: the history goes on, and
+             the refused declaration must have left no trace in it *)
           {| rs_acc := rs_acc st; rs_trie := rs_trie st; rs_codes := v :: rs_codes st;
-             rs_stop := true |}
+             rs_stop := negb (code =? 50) |}
       end
   end.
 
